@@ -155,8 +155,14 @@ def run(ctx):
         a = c.args()
         if len(a) < 3:
             continue
-        t3 = unparse(a[2])
-        if ("value.i" in t3 or "params[" in t3) and "<<32" not in t3.replace(" ", "") and "ORC_N_PARAMS" not in t3 and "<< 32" not in t3:
+        if "src_args" not in unparse(a[0]):
+            continue
+        # an 8-byte parameter is never an element offset (the scalar operand of loadoffX is 4 bytes wide): the arm that stages it
+        # alone is not judged.  Every other staging call is, whatever helper or local the value goes through.
+        if any(m.k == "IfStmt" and m.c[0] is not None and "size==8" in unparse(m.c[0]).replace(" ", "") and m.c[1] is not None and
+               any(x.id == c.id for x in m.c[1].walk()) for m in ee.walk()):
+            continue
+        if True:
             leaves, todo, seen3 = set(), [a[2]], set()
             while todo:
                 e3 = todo.pop()
